@@ -777,6 +777,25 @@ func (u *Unit) specCall(env *specEnv, x *ast.CallExpr) Val {
 		printNode(&b, u.eng.fset, x.Args[0])
 		_, T, _ := env.specType(b.String())
 		return intVal(u.typeID(T))
+	case "cast":
+		// cast(v, T): v viewed at Go type T (the dynamic type is assumed, e.g. the single implementation of an interface)
+		v := u.specEval(env, x.Args[0])
+		var b strings.Builder
+		printNode(&b, u.eng.fset, x.Args[1])
+		_, T, isSl := env.specType(strings.Join(strings.Fields(b.String()), ""))
+		if T == nil || isSl {
+			env.fail("cast: unknown type")
+		}
+		v.T = T
+		return v
+	case "strof":
+		// strof(b): the string a []byte(s) conversion result spells
+		v := u.specEval(env, x.Args[0])
+		if v.Kind != KSlice {
+			env.fail("strof() needs a slice")
+		}
+		u.decls.declFun("strof", []string{SInt}, SStr)
+		return scalar(tApp("strof", v.Arr), SStr, types.Typ[types.String])
 	case "frontier":
 		return intVal(env.st.frontier)
 	case "fresh":
